@@ -5,7 +5,7 @@
      kind "kopt" | "pdp", n, K, D (integer distance matrix, unit 1/S), tol (units; 0 = exact instance),
      init = [rec, best, cost, bsf]                     the TensorDict after env.reset
      ev[k] = [a, rec, best, cost, bsf, rew]            the move and the TensorDict after the k-th env.step
-                                                       (a = <<-1>>: step_to_solution(td, rec_best))
+                                                       (a = <<-1>>: step_to_solution(td, rec_best); <<-2>> \o tour: step_to_solution(td, tour))
    The spec walks the run step by step (l) keeping the history variables
      minSeen = min length of all tours seen, rsum = sum of rewards, nimp = number of non-zero rewards.
    The M_ monitors state the clauses of C09 using only Tour.tla PART 1 and the logged values; they never
@@ -48,8 +48,9 @@ RTol == IF Tr.tol = 0 THEN 0 ELSE 2
 M_Reward == (l > 0 /\ ~Near(Cur.rew, Bef.bsf - Cur.bsf, RTol)) => Fail("reward-decrease")
 M_Sum    == ~Near(rsum, Tr.init.cost - Cur.bsf, RTol * (1 + nimp)) => Fail("reward-sum")
 \* -------- conformance with the transcribed move (valid predecessor tours only) --------
-IsJump(a) == a = <<0 - 1>>
-Expected(rec, a) == IF IsJump(a) THEN Bef.best
+IsJump(a) == a[1] < 0                 \* <<-1>>: step_to_solution(td, rec_best);  <<-2>> \o tour: step_to_solution(td, tour)
+Expected(rec, a) == IF a = <<0 - 1>> THEN Bef.best
+                    ELSE IF a[1] = 0 - 2 THEN Tail(a)
                     ELSE IF Tr.kind = "pdp" THEN RRApplyAct(rec, a) ELSE Apply(rec, Tr.K, a)
 ActShaped(a) == /\ Len(a) = (IF Tr.kind = "pdp" THEN 3 ELSE IF Tr.K = 2 THEN 2 ELSE 3 * Tr.K)
                 /\ \A j \in DOMAIN a : a[j] \in Nodes(Tr.n)
